@@ -3,6 +3,7 @@ import FrappyProofs.Lemmas.Codec
 import FrappyProofs.Lemmas.NoEol
 import FrappyProofs.Lemmas.Senders
 import FrappyProofs.Lemmas.Indep
+import FrappyProofs.Lemmas.PeerGone
 import FrappyModel.Generated.C07
 /-
 C07 — property theorems (nothing but property theorems and their non-vacuity examples).
@@ -563,6 +564,58 @@ example : ∃ s, SendReach (sockInit (fun i => if i = 0 then [[97, 10]] else if 
 
 end whole
 
+/-! ## The peer goes away -/
+
+section gone
+variable {J σ : Type}
+
+/-- **peer_gone_prefix** — a socket on which only the first `n` calls of `sendall` succeed (any `n`), any
+stream, any segmentation, any dispatcher: the peer gets exactly the first `n` frames of the run in
+which no send fails; the lines processed are a prefix of the request lines (the line during which
+the send failed is finished, no later one is touched) and the dispatcher is left in the state after
+exactly these; if the frames suffice the run is the run without failure, otherwise the loop has stopped. -/
+theorem peer_gone_prefix (T : Tables) (L : Lib J) (d : Disp σ J) (st : σ) (chunks : List Bytes) (n : Nat) :
+    let r := serveF T L d ⟨n, true⟩ [] st chunks
+    let full := serve T L d [] st chunks
+    let ls := (splitLines chunks.flatten).lines
+    r.outs = full.outs.take n
+    ∧ r.done ≤ ls.length
+    ∧ r.st = stateAfter T L d st (ls.take r.done)
+    ∧ (full.outs.length ≤ n → r.done = ls.length ∧ r.st = full.st ∧ r.sock.running = true)
+    ∧ (n < full.outs.length → r.sock.running = false) := by
+  intro r full ls
+  have hf := splitLines_isFraming chunks.flatten
+  obtain ⟨hl, _⟩ := feed_lines_are_the_lines chunks _ _ hf
+  obtain ⟨h1, _, h3⟩ := serve_eq_serveLines T L d chunks [] st
+  have hr : r = serveLinesF T L d ⟨n, true⟩ st ls := by
+    simp only [r, ls, serveF_eq_serveLinesF, hl]
+  obtain ⟨a, b, c, e, f⟩ := serveLinesF_spec T L d ls n st
+  have hfull : full.outs = (serveLines T L d st ls).1 := by simp only [full, ls, h1, hl]
+  have hfst : full.st = stateAfter T L d st ls := by simp only [full, ls, h3, hl]
+  rw [hr, hfull]
+  refine ⟨a, b, c, ?_, ?_⟩
+  · intro hle
+    obtain ⟨e1, e2⟩ := e hle
+    refine ⟨e1, ?_, by rw [e2]⟩
+    rw [c, e1, hfst, List.take_length]
+  · intro hlt
+    rw [f hlt]
+
+/-- what the peer got before it went away is sound: whole frames without a newline of their own, and
+the replies among them answer the first request lines, one each, in order -/
+theorem peer_gone_sound (T : Tables) (L : Lib J) (d : Disp σ J) (laws : LibLaws L) (tf : TableNoEol T)
+    (hd : DispFits T L d) (st : σ) (chunks : List Bytes) (n : Nat) :
+    (∀ o ∈ (serveF T L d ⟨n, true⟩ [] st chunks).outs, EOL ∉ rstripSp (joined L o.msg))
+    ∧ (replies (serveF T L d ⟨n, true⟩ [] st chunks).outs).map (·.req) <+: (splitLines chunks.flatten).lines := by
+  obtain ⟨h, _⟩ := peer_gone_prefix T L d st chunks n
+  rw [h]
+  refine ⟨fun o ho => frames_no_newline T L d laws tf hd st chunks o (List.mem_of_mem_take ho), ?_⟩
+  have h1 := (one_reply_per_line T L d st chunks _ _ (splitLines_isFraming chunks.flatten)).1
+  rw [← h1]
+  exact ((List.take_prefix n _).filter _).map _
+
+end gone
+
 /-! ## Strict JSON (recorded finding `C07:strict_json:nan-token`) -/
 
 section strict
@@ -768,5 +821,14 @@ example : judgeIndep tables [([100, 101, 115, 99, 114, 105, 98, 101], false), ([
     [[100, 101, 115, 99, 114, 105, 98, 105, 110, 103, 32, 109, 32, 123, 34, 97, 99, 99, 101, 115, 115, 105, 98, 108, 101, 115, 34, 58, 32, 50, 125] ++ [10]] = .changed 0 := by decide
 
 example : judgeIndep tables [([99, 104, 97, 110, 103, 101, 32, 109, 32, 49], false), ([114, 101, 97, 100, 32, 109], true)] [] [] = .notNeutral 0 := by decide
+
+/-- non-vacuity: the stream `x\n\ny\n` with a dispatcher that refuses everything sends 1 + 12 + 1
+frames; with a socket that fails at the fifth `sendall` the peer has four of them, two lines were
+processed, the third never reached the dispatcher -/
+example :
+    ((serve tables L0 d0 [] () [[120, 10, 10, 121, 10]]).outs.length,
+     (serveF tables L0 d0 ⟨4, true⟩ [] () [[120, 10, 10, 121, 10]]).outs.length,
+     (serveF tables L0 d0 ⟨4, true⟩ [] () [[120, 10, 10, 121, 10]]).done,
+     (serveF tables L0 d0 ⟨4, true⟩ [] () [[120, 10, 10, 121, 10]]).sock) = (14, 4, 2, ⟨0, false⟩) := by decide
 
 end Frappy.Props.C07
